@@ -247,6 +247,19 @@ func stack(t *rapid.T, rt bool) *Built {
 				ip.Options = append(ip.Options, layers.IPv4Option{OptionType: 1, OptionLength: 1})
 			}
 		}
+		if !rt {
+			// explicit padding behind the options (a decoded header keeps whatever bytes followed the last option)
+			n := 0
+			for _, o := range ip.Options {
+				n += int(o.OptionLength)
+			}
+			if n++; n%4 != 0 && n < 40 && rapid.Bool().Draw(t, "ip4pad") {
+				// End-of-Option-List, then whatever bytes follow it up to the 32 bit boundary
+				ip.Options = append(ip.Options, layers.IPv4Option{OptionType: 0, OptionLength: 1})
+				ip.Padding = rapid.SliceOfN(rapid.Byte(), 4-n%4, 4-n%4).Draw(t, "ip4padding")
+				b.Desc = append(b.Desc, "ipv4-explicit-padding")
+			}
+		}
 		if rapid.IntRange(0, 3).Draw(t, "df") == 0 {
 			ip.Flags = layers.IPv4DontFragment
 		}
@@ -375,6 +388,24 @@ func stack(t *rapid.T, rt bool) *Built {
 			iu := &layers.UDP{SrcPort: layers.UDPPort(genPort(t, true, "insport")), DstPort: layers.UDPPort(genPort(t, true, "indport"))}
 			iu.SetNetworkLayerForChecksum(in)
 			b.Layers = append(b.Layers, in, iu)
+		} else {
+			switch rapid.IntRange(0, 3).Draw(t, "greinner") {
+			case 0: // transparent Ethernet bridging: a whole inner frame, with its own link layer behind the outer network layer
+				g.Protocol = layers.EthernetTypeTransparentEthernetBridging
+				ie := &layers.Ethernet{SrcMAC: genMAC(t, "insmac"), DstMAC: genMAC(t, "indmac"), EthernetType: layers.EthernetTypeIPv4}
+				in := &layers.IPv4{Version: 4, TTL: 9, Id: rapid.Uint16().Draw(t, "inid"), SrcIP: genIP(t, 4, "insrc"), DstIP: genIP(t, 4, "indst"), Protocol: layers.IPProtocolUDP}
+				iu := &layers.UDP{SrcPort: layers.UDPPort(genPort(t, false, "insport")), DstPort: layers.UDPPort(genPort(t, false, "indport"))}
+				iu.SetNetworkLayerForChecksum(in)
+				b.Layers = append(b.Layers, ie, in, iu)
+				b.Desc = append(b.Desc, "gre-ethernet")
+			case 1: // an inner IPv4 packet
+				g.Protocol = layers.EthernetTypeIPv4
+				in := &layers.IPv4{Version: 4, TTL: 9, Id: rapid.Uint16().Draw(t, "inid"), SrcIP: genIP(t, 4, "insrc"), DstIP: genIP(t, 4, "indst"), Protocol: layers.IPProtocolUDP}
+				iu := &layers.UDP{SrcPort: layers.UDPPort(genPort(t, false, "insport")), DstPort: layers.UDPPort(genPort(t, false, "indport"))}
+				iu.SetNetworkLayerForChecksum(in)
+				b.Layers = append(b.Layers, in, iu)
+				b.Desc = append(b.Desc, "gre-ipv4")
+			}
 		}
 	}
 	pl := Payload(t, 1400)
@@ -432,3 +463,27 @@ func (b *Built) finish() *Built {
 type errPanic struct{ v any }
 
 func (e errPanic) Error() string { return "panic during serialisation" }
+
+// StackSuffix draws a stack and returns it from one of its inner layers on, together with that layer's type: a
+// capture that starts above the link layer (raw IP, the payload of a tunnel), decoded with the matching first layer.
+func StackSuffix(t *rapid.T) ([]byte, gopacket.LayerType, bool) {
+	st := Stack(t)
+	if st.Err != nil || len(st.Bytes) == 0 {
+		return nil, 0, false
+	}
+	p := gopacket.NewPacket(st.Bytes, st.First, gopacket.DecodeOptions{NoCopy: true})
+	ls := p.Layers()
+	if len(ls) < 3 {
+		return nil, 0, false
+	}
+	k := rapid.IntRange(1, min(len(ls)-2, 4)).Draw(t, "suffixfrom")
+	off := 0
+	for i := 0; i < k; i++ {
+		off += len(ls[i].LayerContents())
+	}
+	lt := ls[k].LayerType()
+	if off >= len(st.Bytes) || lt == gopacket.LayerTypePayload || lt == gopacket.LayerTypeDecodeFailure || lt == gopacket.LayerTypeFragment {
+		return nil, 0, false
+	}
+	return append([]byte(nil), st.Bytes[off:]...), lt, true
+}
